@@ -100,11 +100,18 @@ Fixpoint climb (fuel : nat) (N D p : Z) : Z :=
   | S f => if le_pow10 N D p then climb f N D (p + 1) else p
   end.
 
-(* pt with 10^(pt-1) <= N/D < 10^pt; the final test makes the result self-certifying *)
+(* pt with 10^(pt-1) <= N/D < 10^pt; the final test makes the result self-certifying.  The position is
+   estimated from the bit lengths and fixed up in at most 8 steps; should the estimate ever be off the
+   plain search from 10^-400 is used (it never is on the sampled inputs; the fallback is what makes
+   the function provably total on binary64 values, see Proofs.dec_pt_total). *)
+Definition dec_pt_ok (N D pt : Z) : bool := le_pow10 N D (pt - 1) && negb (le_pow10 N D pt).
+
 Definition dec_pt (N D : Z) : option Z :=
   let est := ((Z.log2 N - Z.log2 D) * 30103) / 100000 in
   let pt := climb 8 N D (est - 2) in
-  if le_pow10 N D (pt - 1) && negb (le_pow10 N D pt) then Some pt else None.
+  if dec_pt_ok N D pt then Some pt
+  else let pt2 := climb 800 N D (-400) in
+       if dec_pt_ok N D pt2 then Some pt2 else None.
 
 (* ------------------------------------------------------------------------------------------ *)
 (* 3. shortest round-trip digits                                                              *)
